@@ -404,7 +404,29 @@ def r01_7(chk):
     chk.floor("R01.7", 3, "SeqDataView twins + SeqView derivations")
 
 
+def r01_8(chk):
+    chk.rule("R01.8", "copy() of a view is a new object: Sequence.copy hands the view's copy to the sequence constructor together with annotation_offset, and the constructor STORES that offset into the view it is given (_coerce_to_seqview); a view class whose copy() returns `self` therefore lets the read-only call seq.copy() re-base the original view -- it then displays, and reports, a segment shifted by its own start")
+    n = 0
+    for rel in ("core/sequence.py", "core/new_sequence.py", NEWALN):
+        m = chk.repo.module(rel)
+        for cname, ci in sorted(m.classes.items()):
+            names = {c.name for c in ci.mro()}
+            if not (names & {"SliceRecordABC", "SeqViewABC", "SeqView"}):
+                continue
+            fn = ci.methods.get("copy")
+            if not isinstance(fn, ast.FunctionDef):
+                continue
+            rets = [r for r in walk_no_nested(fn) if isinstance(r, ast.Return)]
+            if not rets:
+                continue  # abstract declaration
+            n += 1
+            same = [r for r in rets if isinstance(r.value, ast.Name) and r.value.id == "self"]
+            chk.decide(not same, "R01.8", key(m, f"{cname}.copy", "returns a new view"), m.loc(same[0] if same else fn), "every return builds a new object", f"{cname}.copy returns `self`: coll.get_seq('s')[2:8].copy() on a new-type collection writes annotation_offset into the shared view, after which both the copy and the ORIGINAL display TGCAAT / ('s', 4, 10, 1) instead of GTTGCA / ('s', 2, 8, 1), and a second copy() raises ValueError")
+    chk.floor("R01.8", 2, "copy of the stand-alone and of the collection-backed view classes")
+
+
 def run(chk):
+    r01_8(chk)
     r01_7(chk)
     r01_6(chk)
     r01_1_2(chk)
